@@ -213,7 +213,7 @@ class Source(Metadata):
 
     @property
     def bt_infohash_bytes(self) -> bytes:
-        return self.message.bt_infohash.decode()
+        return self.message.bt_infohash
 
     @bt_infohash_bytes.setter
     def bt_infohash_bytes(self, bt_infohash: bytes):
